@@ -14,6 +14,7 @@ import (
 func genRestoreSrc() {
 	f := parseNoComments(filepath.Join(*repo, "decorator/restorer.go"))
 	ok := false
+	okTail := false
 	for _, d := range f.Decls {
 		fd, isF := d.(*ast.FuncDecl)
 		if !isF || fd.Name.Name != "RestoreFile" || fd.Recv == nil || fd.Body == nil || !strings.Contains(src(fd.Recv.List[0].Type), "FileRestorer") {
@@ -51,6 +52,37 @@ func genRestoreSrc() {
 		if !ok {
 			noteUnknown("decorator/restorer.go RestoreFile", "state reset differs from the model's initial state: "+strings.Join(sts, " ; "))
 		}
+		// the part after updateImports: restore the tree, hand every comment group to the file (a fresh
+		// slice, in the order they were recorded), register the file with the size fileSize computes and
+		// install the line table (Model/Restore.finish); only then the deferred Extras pass; return f
+		var tail []string
+		on = false
+		for _, s := range fd.Body.List {
+			t := strings.Join(strings.Fields(src(s)), " ")
+			if strings.HasPrefix(t, "if err := r.updateImports()") {
+				on = true
+				continue
+			}
+			if !on {
+				continue
+			}
+			if strings.HasPrefix(t, "if r.Extras {") {
+				t = "if r.Extras {...}"
+			}
+			tail = append(tail, t)
+		}
+		wantTail := []string{
+			`f := r.restoreNode(r.file, "", "", "", false).(*ast.File)`,
+			"for _, cg := range r.comments { f.Comments = append(f.Comments, cg) }",
+			"ff := r.Fset.AddFile(r.Name, r.base, r.fileSize())",
+			`if !ff.SetLines(r.lines) { panic("ff.SetLines failed") }`,
+			"if r.Extras {...}",
+			"return f, nil",
+		}
+		okTail = strings.Join(tail, "\n") == strings.Join(wantTail, "\n")
+		if !okTail {
+			noteUnknown("decorator/restorer.go RestoreFile", "the statements after updateImports differ from the model's finish: "+strings.Join(tail, " ; "))
+		}
 	}
 	// Decorator.DecorateNode (decorator/decorator.go): a File is fragmented and linked as a whole; the
 	// files of a Package one at a time on an emptied fragment list, so what the models say about File
@@ -79,5 +111,6 @@ func genRestoreSrc() {
 	b.WriteString("(* GENERATED from /repo/decorator/restorer.go and decorator.go -- do not edit *)\n")
 	fmt.Fprintf(&b, "Definition restorefile_starts_from_init_state : bool := %v.\n", ok)
 	fmt.Fprintf(&b, "Definition package_files_decorated_one_at_a_time : bool := %v.\n", okp)
+	fmt.Fprintf(&b, "Definition restorefile_finishes_as_the_model : bool := %v.\n", okTail)
 	writeIfChanged("RestoreSrc.v", b.String())
 }
